@@ -513,6 +513,71 @@ def _k_case(case, tally):
         tally.violation({"invariant": bad[0], "part": "K", "policy": kind}, {k: v for k, v in case.items() if k != "scratch"}, f"{bad[0]}: {kind} cache, history {hist}: {bad[1]}")
 
 
+# ---- part N: inputs with non-finite components (a failed upstream computation) -----------------------------------
+N_FORMS = {"p": [1.0, 2.0], "q": [3.0, 2.0], "nan0": [float("nan"), 2.0], "nan1": [3.0, float("nan")], "inf": [float("inf"), 2.0]}
+
+
+def _n_cls():
+    from gemseo.core.discipline import Discipline
+
+    class N(Discipline):
+        def __init__(self):
+            super().__init__(name="N")
+            self.input_grammar.update_from_names(["a"])
+            self.output_grammar.update_from_names(["y"])
+            self.default_input_data = {"a": np.array([0.0, 0.0])}
+            self.n = 0
+
+        def _run(self, input_data):
+            self.n += 1
+            return {"y": 2.0 * input_data["a"] + 1.0}
+
+    return N
+
+
+def _n_case(case, tally):
+    (kind, tol), hist = case["policy"], case["hist"]
+    d = _n_cls()()
+    h5 = os.path.join(case["scratch"], f"c05n_{os.getpid()}_{next(_COUNTER)}.h5")
+    if kind == "memF":
+        d.set_cache(d.CacheType.MEMORY_FULL, tolerance=tol, is_memory_shared=False)
+    elif kind == "hdf":
+        d.set_cache(d.CacheType.HDF5, tolerance=tol, hdf_file_path=h5, hdf_node_path="n")
+    else:
+        d.set_cache(d.CacheType.SIMPLE, tolerance=tol)
+    bad = None
+    try:
+        for step, form in enumerate(hist):
+            a = np.array(N_FORMS[form])
+            exp = 2.0 * a + 1.0
+            try:
+                got = np.asarray(d.execute({"a": a.copy()})["y"])
+            except Exception as e:
+                bad = ("non-finite-input-raises", f"step {step} ({form}): {type(e).__name__}: {str(e)[:200]}")
+                break
+            # no alphabet value is within the tolerance of another one, and a NaN is within the tolerance of nothing:
+            # the outputs are those of the body on that very input
+            if got.shape != exp.shape or not np.array_equal(got, exp, equal_nan=True):
+                bad = ("non-finite-input-served-another-inputs-output", f"step {step}: a={a.tolist()} returned y={got.tolist()}, the body gives {exp.tolist()}")
+                break
+        finite = [f for f in hist if f in ("p", "q")]
+        if bad is None and kind != "simple" and set(hist) <= {"p", "q"} and d.n > len(set(finite)):
+            bad = ("body-ran-more-than-once-per-input", f"{d.n} runs for {len(set(finite))} distinct inputs")
+    finally:
+        if kind == "hdf":
+            from gemseo.utils.singleton import SingleInstancePerFileAttribute
+
+            for k in [k for k in SingleInstancePerFileAttribute.instances if k[1] == os.path.realpath(h5)]:
+                SingleInstancePerFileAttribute.instances.pop(k, None)
+            if os.path.exists(h5):
+                os.remove(h5)
+    tally.case(("N", kind, tol, tuple(hist)), nontrivial=any(f not in ("p", "q") for f in hist) and len(hist) > 1, outcome=f"N:{kind}:tol={tol > 0}:{'bad' if bad else 'ok'}")
+    tally.traces += 1
+    tally.transitions += len(hist)
+    if bad:
+        tally.violation({"invariant": bad[0], "part": "N", "policy": kind, "tolerance": tol > 0}, {k: v for k, v in case.items() if k != "scratch"}, f"{bad[0]}: {kind} cache tolerance={tol}, history {hist}: {bad[1]}")
+
+
 def _run_policy(policy, variant, depth, scratch, jobs):
     t = Tally()
     spec = Spec(tuple(policy), variant, scratch)
@@ -524,7 +589,7 @@ def run(ctx):
     global VALS
     VALS = ctx.pick(VALSETS)
     tally = ctx.tally
-    only = ctx.only or "HSK"
+    only = ctx.only or "HSKN"
     bounds = {}
     if "H" in only:
         for policy in POLICIES:
@@ -546,6 +611,13 @@ def run(ctx):
                  for L in ((1, 2, 3, 4) if ctx.thorough else (1, 2, 3)) for h in itertools.product(forms, repeat=L)]
         pmap(_k_case, cases, tally, jobs=ctx.jobs, chunk=25, timeout=300)
         bounds["K"] = {"forms": forms, "max_length": 4 if ctx.thorough else 3, "histories": len(cases)}
+    if "N" in only:
+        forms = list(N_FORMS)
+        cases = [{"part": "N", "policy": list(pol), "hist": list(h), "scratch": ctx.scratch}
+                 for pol in (("simple", 0.0), ("simple", TOL), ("memF", 0.0), ("memF", TOL), ("hdf", 0.0), ("hdf", TOL))
+                 for L in ((1, 2, 3, 4) if ctx.thorough else (1, 2, 3)) for h in itertools.product(forms, repeat=L)]
+        pmap(_n_case, cases, tally, jobs=ctx.jobs, chunk=25, timeout=300)
+        bounds["N"] = {"forms": forms, "max_length": 4 if ctx.thorough else 3, "histories": len(cases)}
     if "S" in only:
         names = shipped_classes()
         tally.notes["shipped_disciplines"] = [n for n, _ in names]
@@ -567,7 +639,8 @@ def run(ctx):
         "rule": "H: BFS over histories of execute / execute-through-reused-arrays / defaults-only / linearize(all|subset) / reopen for each cache policy; "
         "non-trivial = a repeated input value, an in-place modified caller array or a reopen; S: every history of <= 3 operations over 4 operations on each shipped discipline, "
         "non-trivial = two different inputs in the history; K: every history of <= 3 (thorough 4) executions over 4 input forms of which 3 have identical bytes "
-        "(flat, column, complex) on exact-matching caches, non-trivial = two byte-identical forms in the history",
+        "(flat, column, complex) on exact-matching caches, non-trivial = two byte-identical forms in the history; "
+        "N: every history of <= 3 (4) executions over 5 inputs of which 3 have a NaN or infinite component, exact and tolerance-based caches, non-trivial = a non-finite input after another input",
         "exhaustive": True,
         "bounds": bounds,
         "assumptions": ["value alphabet: 3 inputs (one within the tolerance of another) + defaults; 3 alphabets rotated by VERIF_SEED",
@@ -579,6 +652,9 @@ def replay(case, ctx):
     t = Tally()
     if case.get("part") == "S":
         _shipped_case(case, t)
+        return {"violations": [v["message"] for v in t.violations.values()]}
+    if case.get("part") == "N":
+        _n_case(dict(case, scratch=ctx.scratch), t)
         return {"violations": [v["message"] for v in t.violations.values()]}
     if case.get("part") == "K":
         _k_case(dict(case, scratch=ctx.scratch), t)
